@@ -192,7 +192,7 @@ def gen_plan(rng, tier, i):
         live.append((tid, i_))
         return tid
 
-    nops = rng.randint(3, 9)
+    nops = rng.randint(3, 9) if tier != "thorough" else rng.randint(5, 16)  # thorough: longer histories
     last_done = None
     while len(ops) < nops:
         r = rng.random()
